@@ -89,7 +89,7 @@ def run(tier):
     fc = gen.fold_corpus([0, 1, 2, 255, 256, 2 ** 255, 2 ** 256 - 1])
     if tier == "quick":
         fc = rng.sample(fc, 250)
-    extreme = fc + gen.stack_corpus() + \
+    extreme = fc + gen.stack_corpus() + gen.deep_same_operand_corpus() + \
         ["NOT NOT", "DUP1 NOT NOT ADD", " ".join(["ISZERO"] * 40), " ".join(["DUP1"] * 20 + ["ADD"] * 19), "PUSH1 0x0 PUSH1 0x5 DIV",
          "PUSH1 0x0 PUSH1 0x5 MOD", "PUSH32 0x" + "f" * 64 + " PUSH1 0x3 EXP", "PUSH32 0x" + "f" * 64 + " PUSH32 0x" + "f" * 64 + " EXP",
          "PUSH32 0x" + "f" * 64 + " DUP1 SHL", "PUSH1 0x5 PUSH1 0x3 PUSH1 0x4 ADDMOD", "PUSH1 0x0 PUSH1 0x3 PUSH1 0x4 MULMOD",
